@@ -148,16 +148,15 @@ End Exact.
 (* ---- the documented class on which the headline clause 'for any initialisation' fails, with the REAL operators and for EVERY budget:
    a user-supplied CP tensor is not passed through the operators, so a constrained mode listed in fixed_modes (not the last mode) comes
    back as the user wrote it - here with a negative entry although non_negative=True is requested on every mode - whatever the outer
-   budget, the inner budget (>= 1: the code needs one inner iteration to bind x_split) and the environment. *)
+   budget, the inner budget and the environment. *)
 Definition nat_truthy' (p : nat) : bool := negb (Nat.eqb p 0).
 Theorem user_init_fixed_mode_refuted (other : kind -> nat -> mat -> mat) (E : env (M := mat)) (msub madd : mat -> mat -> mat) (n_outer n_inner : nat) :
-  (0 < n_inner)%nat ->
   let sp := zkeywords (fun k => match k with KNonNeg => ZScalar 1%nat | _ => ZNone end) in
   let A : mat := [[-1; 2]; [3; 4]] in
   exists fs, constrained_cp [] (op_c12 INR (fun p => p) other) (zvalidate nat_truthy' 3 sp) msub madd E 3 (IUser [A; A; A]) [0%nat] n_outer n_inner [] = Ok fs /\
              nth 0 fs [] = A /\ ~ Forall (fun a => 0 <= a) (concat (nth 0 fs [])).
 Proof.
-  intros Hi. cbv zeta.
+  cbv zeta.
   set (sp := zkeywords (fun k => match k with KNonNeg => ZScalar 1%nat | _ => ZNone end)).
   set (A := [[-1; 2]; [3; 4]] : mat).
   assert (T : zvalidate_table nat_truthy' 3 sp = Ok [Some (KNonNeg, 1%nat); Some (KNonNeg, 1%nat); Some (KNonNeg, 1%nat)]) by (vm_compute; reflexivity).
